@@ -576,4 +576,108 @@ theorem Sem.finish {g : Graph} {store0 : List (String × List (String × String)
       rw [this] at hfin
       exact hg (j.fin q hq hf hfin vs hvs)
 
+/-! ## the run decision does not read edges -/
+
+theorem SameNodes.fld {gv g : Graph} (h : SameNodes gv g) {α} (F : Node → α) (hF : ∀ nd, F nd = F nd.noEdges) (n : Nat) :
+    F (gv.node n) = F (g.node n) := by rw [hF, h.node, ← hF]
+
+theorem SameNodes.scope {gv g : Graph} (h : SameNodes gv g) (n : Nat) : (gv.node n).scope = (g.node n).scope :=
+  h.fld Node.scope (fun _ => rfl) n
+theorem SameNodes.sharedRoot {gv g : Graph} (h : SameNodes gv g) (n : Nat) : (gv.node n).sharedRoot = (g.node n).sharedRoot :=
+  h.fld Node.sharedRoot (fun _ => rfl) n
+theorem SameNodes.dryRun {gv g : Graph} (h : SameNodes gv g) (n : Nat) : (gv.node n).dryRun = (g.node n).dryRun :=
+  h.fld Node.dryRun (fun _ => rfl) n
+theorem SameNodes.cloneSource {gv g : Graph} (h : SameNodes gv g) (n : Nat) : (gv.node n).cloneSource = (g.node n).cloneSource :=
+  h.fld Node.cloneSource (fun _ => rfl) n
+theorem SameNodes.rerunStatus {gv g : Graph} (h : SameNodes gv g) (n : Nat) : (gv.node n).rerunStatus = (g.node n).rerunStatus :=
+  h.fld Node.rerunStatus (fun _ => rfl) n
+theorem SameNodes.stopStatus {gv g : Graph} (h : SameNodes gv g) (n : Nat) : (gv.node n).stopStatus = (g.node n).stopStatus :=
+  h.fld Node.stopStatus (fun _ => rfl) n
+
+theorem sharedFilteredResults_sameNodes {gv g : Graph} (h : SameNodes gv g) (s : State) (n : Nat) (sw : Option Nat) :
+    sharedFilteredResults gv s n sw = sharedFilteredResults g s n sw := by
+  unfold sharedFilteredResults
+  simp only [sharedResults_sameNodes h, h.shape, h.worker]
+
+theorem shouldRerun_sameNodes {gv g : Graph} (h : SameNodes gv g) (s : State) (n w : Nat) :
+    shouldRerun gv s n w = shouldRerun g s n w := by
+  unfold shouldRerun
+  simp only [h.dryRun, h.flat, h.cloneSource, idIn_sameNodes h, h.rerunStatus, h.maxTries, h.sets, h.stopStatus,
+    sharedResults_sameNodes h, sharedFilteredResults_sameNodes h]
+
+theorem scanStates_sameNodes {gv g : Graph} (h : SameNodes gv g) (s : State) (n w : Nat) :
+    scanStates gv s n w = scanStates g s n w := by
+  unfold scanStates
+  simp only [h.sets, h.scope, h.worker]
+
+theorem runDecision_sameNodes {gv g : Graph} (h : SameNodes gv g) (s : State) (n w : Nat) :
+    runDecision gv s n w = runDecision g s n w := by
+  unfold runDecision runDecisionStateless runDecisionStateful runDecisionStatefulCore
+  simp only [h.sharedRoot, h.dryRun, h.flat, h.cloneSource, idIn_sameNodes h, h.sets, sharedResults_sameNodes h,
+    shouldRerun_sameNodes h, scanStates_sameNodes h, isFinished_sameNodes h, sharedFilteredResults_sameNodes h]
+
+theorem sharedResultWorkerIds_sameNodes {gv g : Graph} (h : SameNodes gv g) (s : State) (n : Nat) :
+    sharedResultWorkerIds gv s n = sharedResultWorkerIds g s n := by
+  unfold sharedResultWorkerIds
+  simp only [sharedResults_sameNodes h, h.workers, h.worker]
+
+/-! ## a negative run decision on a parsed stateful copy: its states are sourced -/
+
+theorem runDecision_false_src (g : Graph) (hy : SemHyp g) (hO : OwnerNames g) (hF : FlatClass g)
+    {store0 : List (String × List (String × String))} (hI : InitShared store0) (s : State) (j : Sem g store0 s)
+    (p w : Nat) (hp : p < g.nodes.length) (hf : (g.node p).flat = false) (s1 : State) (evs : List Event)
+    (h : runDecision g s p w = .ok (false, s1, evs)) : ∀ vs ∈ (g.node p).sets, Src g s p vs := by
+  obtain ⟨p1, p2, p3, _⟩ := hy.plainNodes p hp hf
+  obtain ⟨hshape, hown, hshared⟩ := hy.fullScope p hp hf
+  intro vs hvs
+  unfold runDecision at h
+  simp only [p1, p2, p3, hf, Bool.false_eq_true, if_false] at h
+  have hid : g.idIn w p = true := by
+    by_cases hid : g.idIn w p = true
+    · exact hid
+    · simp [hid] at h
+  have hne : (g.node p).sets.isEmpty = false := by
+    cases hl : (g.node p).sets with
+    | nil => rw [hl] at hvs; simp at hvs
+    | cons a r => rfl
+  simp only [hid, Bool.not_true, Bool.false_eq_true, if_false, hne] at h
+  unfold runDecisionStateful runDecisionStatefulCore at h
+  by_cases hfin : isFinished g s p w 1 = true
+  · -- some copy of the class was traversed before: its states are sourced
+    unfold isFinished scopeCount at hfin
+    simp only [hf, Bool.false_eq_true, if_false, hshape] at hfin
+    have hlen : 1 ≤ (sharedFinished g s p).length := by
+      have : ((1 : Int) == -1) = false := by decide
+      simp only [this, Bool.false_eq_true, if_false, decide_eq_true_eq, ge_iff_le] at hfin
+      omega
+    obtain ⟨x, hx⟩ := List.exists_mem_of_length_pos (by omega : 0 < (sharedFinished g s p).length)
+    obtain ⟨i, hi, hfi⟩ := (mem_sharedFinished g s p x).mp hx
+    obtain ⟨hil, hic⟩ := (mem_copies_iff g p i hp hf).mp hi
+    have hfli : (g.node i).flat = false := by rw [hF i hil p hp hic]; exact hf
+    have := j.fin i hil hfli (by rw [hfi]; rfl) vs (by rw [hy.setsClass i hil p hp hic]; exact hvs)
+    exact this.congr hil hp hfli hf hic
+  · -- nobody has traversed the class: the scan found every state in the own or in the shared pool
+    have hfin' : isFinished g s p w 1 = false := by simpa using hfin
+    simp only [hfin', Bool.not_false, Bool.true_and, if_true] at h
+    by_cases hsc : (scanStates g s p w).1 = true
+    · simp only [hsc, if_true, Except.ok.injEq, Prod.mk.injEq] at h
+      exact absurd h.1 (by simp)
+    · have hsc' : (scanStates g s p w).1 = false := by simpa using hsc
+      unfold scanStates at hsc'
+      simp only [hne, Bool.false_eq_true, if_false, Bool.not_eq_false'] at hsc'
+      rw [List.all_eq_true] at hsc'
+      have := hsc' vs hvs
+      simp only [hown, hshared, Bool.true_and, Bool.or_eq_true, List.contains_iff_mem] at this
+      rcases this with hin | hin
+      · -- in the worker's own pool: by provenance it was shared initially or produced by the class
+        rcases j.prov _ vs hin with h0 | ⟨u, q, hloc, hq, hfq, hoq, hsq, r, hr, hrn⟩
+        · left
+          rw [← hI.get _ vs h0]; exact hin
+        · have hc : (g.node q).cls = (g.node p).cls := hy.uniqueProducer q hq p hp vs hsq hfq hf hvs
+          have hrs : r ∈ sharedResults g s p := mem_sharedResults g s q p r hq hf hc hr
+          by_cases hst : r.status = "PASS"
+          · exact Or.inr (Or.inl ⟨u, listed_of_pass hO hy.ownersReal hq hfq hoq hrs hrn hst, by rw [← hloc]; exact hin⟩)
+          · exact Or.inr (Or.inr ⟨r, hrs, hst⟩)
+      · exact Or.inl hin
+
 end I2N.Trav
